@@ -1,10 +1,77 @@
+// pxcheck: entry point of the runtime-monitoring harness for Flowpack/prunner
+//
+//	pxcheck run <Cxx> <quick|thorough>            plan, spawn workers, judge, write evidence
+//	pxcheck worker <Cxx> <tier> <seed> <shard> <of> <out>   (child mode)
+//	pxcheck replay <Cxx> <tier> <seed> <case>     re-run one case in this process and print what the oracles found
 package main
 
 import (
+	"encoding/json"
 	"fmt"
+	"os"
+	"strconv"
 
-	_ "github.com/Flowpack/prunner"
-	_ "github.com/anishathalye/porcupine"
+	"pxverif/checks"
 )
 
-func main() { fmt.Println("ok") }
+func seedFromEnv() int64 {
+	if s := os.Getenv("VERIF_SEED"); s != "" {
+		if v, err := strconv.ParseInt(s, 10, 64); err == nil {
+			return v
+		}
+	}
+	return 1
+}
+
+func main() {
+	if len(os.Args) < 2 {
+		fmt.Fprintln(os.Stderr, "usage: pxcheck run|worker|replay|list ...")
+		os.Exit(2)
+	}
+	if code, ok := checks.Aux(os.Args[1:]); ok {
+		os.Exit(code)
+	}
+	switch os.Args[1] {
+	case "list":
+		for _, id := range checks.IDs() {
+			fmt.Println(id)
+		}
+	case "run":
+		if len(os.Args) < 4 {
+			fmt.Fprintln(os.Stderr, "usage: pxcheck run <Cxx> <quick|thorough>")
+			os.Exit(2)
+		}
+		os.Exit(checks.RunCheck(os.Args[2], os.Args[3], seedFromEnv()))
+	case "worker":
+		if len(os.Args) < 8 {
+			os.Exit(2)
+		}
+		seed, _ := strconv.ParseInt(os.Args[4], 10, 64)
+		shard, _ := strconv.Atoi(os.Args[5])
+		of, _ := strconv.Atoi(os.Args[6])
+		os.Exit(checks.RunWorker(os.Args[2], os.Args[3], seed, shard, of, os.Args[7]))
+	case "replay":
+		if len(os.Args) < 6 {
+			fmt.Fprintln(os.Stderr, "usage: pxcheck replay <Cxx> <tier> <seed> <case>")
+			os.Exit(2)
+		}
+		seed, _ := strconv.ParseInt(os.Args[4], 10, 64)
+		idx, _ := strconv.Atoi(os.Args[5])
+		c := checks.Get(os.Args[2])
+		if c == nil || c.RunCase == nil {
+			fmt.Fprintln(os.Stderr, "no replayable case machinery for", os.Args[2])
+			os.Exit(2)
+		}
+		tmp, _ := os.MkdirTemp("", "pxreplay-")
+		defer os.RemoveAll(tmp)
+		res := c.RunCase(&checks.CaseCtx{Prop: c.ID, Idx: idx, Seed: checks.CaseSeed(seed, c.ID, idx), Base: seed, Tier: os.Args[3], TmpDir: tmp})
+		b, _ := json.MarshalIndent(res, "", " ")
+		fmt.Println(string(b))
+		if len(res.Findings) > 0 {
+			os.Exit(1)
+		}
+	default:
+		fmt.Fprintln(os.Stderr, "unknown command", os.Args[1])
+		os.Exit(2)
+	}
+}
